@@ -30,7 +30,8 @@
      `----------------------->|        |<-----------------------'
                               +--------+
 
-   Events are the ones of the figure, seen from one endpoint, on the stream they concern:
+   Events are the ones of the figure (constructors KH, KHES, KES, KPP, KR below), seen from one
+   endpoint, on the stream they concern:
      H    a HEADERS frame without END_STREAM that opens a message or carries an informational (1xx)
           response
      HES  a HEADERS frame with END_STREAM that opens a message (a message without body)
@@ -45,7 +46,7 @@ Inductive rfc_state :=
 | idle | reserved_local | reserved_remote | open | half_closed_local | half_closed_remote | closed.
 
 Inductive dir := Send | Recv.
-Inductive ekind := H | HES | ES | PP | R.
+Inductive ekind := KH | KHES | KES | KPP | KR.
 
 (* The transition function: None = the RFC does not permit this event in this state (for Send: the
    endpoint MUST NOT send it; for Recv: the endpoint MUST treat it as an error). *)
@@ -55,52 +56,52 @@ Definition rfc_step (s : rfc_state) (d : dir) (k : ekind) : option rfc_state :=
      stream to become open"; "Sending a PUSH_PROMISE frame on another stream reserves the idle stream
      ... reserved (local)"; "Receiving ... reserved (remote)"; "Receiving any frame other than HEADERS
      or PRIORITY on a stream in this state MUST be treated as a connection error" *)
-  | idle, _, H => Some open
-  | idle, Send, HES => Some half_closed_local
-  | idle, Recv, HES => Some half_closed_remote
-  | idle, Send, PP => Some reserved_local
-  | idle, Recv, PP => Some reserved_remote
+  | idle, _, KH => Some open
+  | idle, Send, KHES => Some half_closed_local
+  | idle, Recv, KHES => Some half_closed_remote
+  | idle, Send, KPP => Some reserved_local
+  | idle, Recv, KPP => Some reserved_remote
   | idle, _, _ => None
   (* reserved (local): "The endpoint can send a HEADERS frame. This causes the stream to open in a
      half-closed (remote) state.  Either endpoint can send a RST_STREAM frame to cause the stream to
      become closed."  "MUST NOT send any type of frame other than HEADERS, RST_STREAM, or PRIORITY" *)
-  | reserved_local, Send, H => Some half_closed_remote
-  | reserved_local, Send, HES => Some closed
-  | reserved_local, _, R => Some closed
+  | reserved_local, Send, KH => Some half_closed_remote
+  | reserved_local, Send, KHES => Some closed
+  | reserved_local, _, KR => Some closed
   | reserved_local, _, _ => None
   (* reserved (remote): "Receiving a HEADERS frame causes the stream to transition to half-closed
      (local).  Either endpoint can send a RST_STREAM frame" *)
-  | reserved_remote, Recv, H => Some half_closed_local
-  | reserved_remote, Recv, HES => Some closed
-  | reserved_remote, _, R => Some closed
+  | reserved_remote, Recv, KH => Some half_closed_local
+  | reserved_remote, Recv, KHES => Some closed
+  | reserved_remote, _, KR => Some closed
   | reserved_remote, _, _ => None
   (* open: "may be used by both peers to send frames of any type"; "either peer can send a frame with
      an END_STREAM flag set"; "Either endpoint can send a RST_STREAM frame from this state" *)
-  | open, _, H => Some open
-  | open, Send, (HES | ES) => Some half_closed_local
-  | open, Recv, (HES | ES) => Some half_closed_remote
-  | open, _, R => Some closed
-  | open, _, PP => None
+  | open, _, KH => Some open
+  | open, Send, (KHES | KES) => Some half_closed_local
+  | open, Recv, (KHES | KES) => Some half_closed_remote
+  | open, _, KR => Some closed
+  | open, _, KPP => None
   (* half-closed (local): "cannot be used for sending frames other than WINDOW_UPDATE, PRIORITY, and
      RST_STREAM"; "transitions ... to closed when a frame is received with the END_STREAM flag set or
      when either peer sends a RST_STREAM frame"; "An endpoint can receive any type of frame" *)
-  | half_closed_local, Recv, H => Some half_closed_local
-  | half_closed_local, Recv, (HES | ES) => Some closed
-  | half_closed_local, _, R => Some closed
+  | half_closed_local, Recv, KH => Some half_closed_local
+  | half_closed_local, Recv, (KHES | KES) => Some closed
+  | half_closed_local, _, KR => Some closed
   | half_closed_local, _, _ => None
   (* half-closed (remote): "no longer being used by the peer to send frames"; "If an endpoint receives
      additional frames, other than WINDOW_UPDATE, PRIORITY, or RST_STREAM ... MUST respond with a
      stream error of type STREAM_CLOSED"; "can be used by the endpoint to send frames of any type";
      "can transition ... to closed by sending a frame with the END_STREAM flag set or when either
      peer sends a RST_STREAM frame" *)
-  | half_closed_remote, Send, H => Some half_closed_remote
-  | half_closed_remote, Send, (HES | ES) => Some closed
-  | half_closed_remote, _, R => Some closed
+  | half_closed_remote, Send, KH => Some half_closed_remote
+  | half_closed_remote, Send, (KHES | KES) => Some closed
+  | half_closed_remote, _, KR => Some closed
   | half_closed_remote, _, _ => None
   (* closed: terminal.  "An endpoint MUST NOT send frames other than PRIORITY on a closed stream";
      "An endpoint that sends a frame with the END_STREAM flag set or a RST_STREAM frame might receive
      a WINDOW_UPDATE or RST_STREAM frame from its peer" *)
-  | closed, Recv, R => Some closed
+  | closed, Recv, KR => Some closed
   | closed, _, _ => None
   end.
 
@@ -168,10 +169,10 @@ Definition receiver_must (s : rfc_state) (h : closed_how) (t : ftype) : verdict 
 (* the frame type that carries an event, and whether the event ends the sender's half *)
 Definition ftype_of (k : ekind) : ftype :=
   match k with
-  | H | HES => HEADERS
-  | ES => DATA              (* or trailers HEADERS: both need the state to allow DATA/HEADERS *)
-  | PP => PUSH_PROMISE
-  | R => RST_STREAM
+  | KH | KHES => HEADERS
+  | KES => DATA              (* or trailers HEADERS: both need the state to allow DATA/HEADERS *)
+  | KPP => PUSH_PROMISE
+  | KR => RST_STREAM
   end.
 
 (* RFC 9113 8.1: in each direction a message is  (1xx HEADERS)*  HEADERS  DATA*  [trailers + ES].
